@@ -55,6 +55,8 @@ class KVUnit(SeqUnit):
             ctx.sample({"unit": self.name, "flow": "model->code (LTS tour path, %s)" % kind, "path": s})
         for m in rep.get("mismatches") or []:
             sig = "%s:lts:%s" % (self.sut, m["op"])
+            if "|panic:" in (m.get("class") or ""):
+                sig = "%s:lts:%s" % (self.sut, m["class"].split("|", 1)[1].rstrip())
             if any(v["sig"] == sig for v in ctx.violations):
                 continue
             what = "%s.%s: real code gave %s, model allows %s (cfg %s, after %d steps)" % (
@@ -74,6 +76,6 @@ def units(ctx):
         "C04: calls the statement does not list for the closed store (Close again, batch Set/Delete/Cancel, Realm) "
         "may succeed or fail with ErrStoreClosed; a batch handle is not used again after a successful Commit")
     return [
-        KVUnit("kvstore", "KVStore", traces=(60, 200), thorough_traces=(400, 200)),
+        KVUnit("kvstore", "KVStore", traces=(100, 200), thorough_traces=(400, 200)),
         McUnit("kvstore", "KVStore", cfgkind="batch", thorough_cfgkind="batchthorough", name="KVStore:batch"),
     ]
